@@ -1,17 +1,31 @@
 (** C05 — a persistent database reopens to exactly the state it was closed with: the property
     theorems (statements only; proofs are in Wal/Proofs*.v).  Pinned by props/C05.statements. *)
 From GV Require Export Wal.Spec.
-From GV Require Import Wal.ProofsFrame Wal.ProofsRecover Wal.ProofsDb Wal.ProofsSnap Wal.ProofsWitness.
+From GV Require Import Wal.ProofsFrame Wal.ProofsRecover Wal.ProofsDb Wal.ProofsSnap Wal.ProofsCodec Wal.ProofsCrash Wal.ProofsReal Wal.ProofsWitness.
 Open Scope Z_scope.
 
 (** close + reopen reproduces the store exactly, for any number of cycles, for every history
-    of API calls outside the four finding classes *)
-Theorem clean_cycle : forall crc enc dec,
-  crc_u32 crc -> (forall r, dec (enc r) = Some r) -> (forall r, lenZ (enc r) < two32) ->
-  forall cfg ss, no_crash ss = true -> forallb kclean (hist_flags crc enc dec cfg db_fresh ss) = true ->
+    of API calls outside the four finding classes — for any checksum with 32-bit values and any
+    record codec that carries the records this history logs *)
+Theorem clean_cycle : forall crc enc dec, crc_u32 crc -> forall cfg ss,
+  no_crash ss = true -> forallb kclean (hist_flags crc enc dec cfg db_fresh ss) = true ->
+  Forall (rec_ok enc dec) (hist_logs crc enc dec cfg db_fresh ss) ->
   Forall cycle_exact (fst (run_sessions crc enc dec cfg db_fresh ss)).
 Proof. exact clean_cycle_l. Qed.
 Print Assumptions clean_cycle.
+
+(** the bincode record codec carries every well-formed record, whatever follows it in the buffer *)
+Theorem record_codec_roundtrip : forall r rest, rec_wf r -> dec_record (enc_record r ++ rest) = Some (r, rest).
+Proof. exact dec_enc_record. Qed.
+Print Assumptions record_codec_roundtrip.
+
+(** the same with CRC-32 and the bincode codec: no premise about the codec is left, only that
+    the logged records are well formed and shorter than 4 GiB *)
+Theorem clean_cycle_real : forall cfg ss,
+  no_crash ss = true -> forallb kclean (real_flags cfg ss) = true -> Forall rec_fits (real_logs cfg ss) ->
+  Forall cycle_exact (fst (real_sessions cfg ss)).
+Proof. exact clean_cycle_real_l. Qed.
+Print Assumptions clean_cycle_real.
 
 (** whatever directory is opened (any bytes in any file): if the open succeeds, every
     identifier the replay created lies below the counters new identifiers are taken from *)
@@ -55,10 +69,13 @@ Theorem rotation_loses_older_files_refuted : exists cfg ss,
 Proof. exists (engine_cfg MSync), w05_4. exact w05_4_l. Qed.
 Print Assumptions rotation_loses_older_files_refuted.
 
-(** non-vacuity: a three-session history with every logged operation kind is clean *)
+(** non-vacuity: a three-session history with every logged operation kind is clean, and all
+    the records it logs are carried by the codec *)
 Example clean_history_exists :
-  forallb kclean (real_flags (engine_cfg MSync)
-    [([OCreateNodeProps [sA; sB] [(sK, vOne)]; OCreateNode [sB]; OCreateEdge 0 1 sK; OAddLabel 1 sC], EClose);
-     ([OCheckpoint; ODeleteNode 0; ORemoveLabel 1 sB; OSetEdgeProp 0 sK vOne; OSync], EClose);
-     ([ODeleteEdge 0; OCreateNode [sA]], EClose)]) = true.
-Proof. vm_compute. reflexivity. Qed.
+  let ss := [([OCreateNodeProps [sA; sB] [(sK, vOne)]; OCreateNode [sB]; OCreateEdge 0 1 sK; OAddLabel 1 sC], EClose);
+             ([OCheckpoint; ODeleteNode 0; ORemoveLabel 1 sB; OSetEdgeProp 0 sK vOne; OSync], EClose);
+             ([ODeleteEdge 0; OCreateNode [sA]], EClose)] in
+  no_crash ss = true /\ forallb kclean (real_flags (engine_cfg MSync) ss) = true
+  /\ forallb (fun r => option_eqb record_eqb (dec_record_slice (enc_record r)) (Some r) && (lenZ (enc_record r) <? two32))
+             (real_logs (engine_cfg MSync) ss) = true.
+Proof. cbv zeta. split; [reflexivity|]. split; vm_compute; reflexivity. Qed.
